@@ -185,7 +185,7 @@ fn failure<const WHICH: usize>() {
  "bound": "ConnectionError::{1} on a CONNECT host.example:443 request",
  "desc": "fail_request_with_error sends exactly one final response: 407 + Basic challenge for Authentication, 502 + the documented X-Warning code otherwise, host name echoed for 310/311",
  "encodes": ["http_downstream::fail_request_with_error", "http_downstream::tunnel_error_to_status_code", "http_downstream::tunnel_error_to_warn_header", "http_codec::PendingRespond::send_bad_response"],
- "quick": "[(0,'Io'),(1,'Authentication'),(6,'Other')]", "thorough": "[(2,'Timeout'),(3,'HostUnreachable'),(4,'DnsNonroutable'),(5,'DnsLoopback')]"}
+ "quick": "[(1,'Authentication'),(6,'Other')]", "thorough": "[(0,'Io'),(2,'Timeout'),(3,'HostUnreachable'),(4,'DnsNonroutable'),(5,'DnsLoopback')]"}
 @*/
 
 // @harness tier=quick core=yes bound="CONNECT host.example:443 accepted (TcpConnection::promote_to_next_state)"
